@@ -72,6 +72,14 @@ fn check_pair_unguarded(a: &[u8], b: &[u8]) -> Result<bool, String> {
         if guarded(|| t.is_comparison_candidate(&hb_dn))? != got {
             return Err("is_comparison_candidate (near-gt: bh1 vs bh2) disagrees".into());
         }
+        // the pre-filter as the hash-level comparison applies it (its own shortcut paths for block sizes one
+        // step apart): a non-zero score needs a common substring, and a common substring gives a non-zero score
+        for (x, y, what) in [(&ha2, &hb_up, "a.bh2 ~ b.bh1"), (&ha, &hb_dn, "a.bh1 ~ b.bh2"), (&hb_up, &ha2, "mirror"), (&hb_dn, &ha, "mirror")] {
+            let sc = guarded(|| x.compare(y))?;
+            if (sc != 0) != got {
+                return Err(format!("hash-level compare at adjacent block sizes ({}) = {} but common substring = {}", what, sc, got));
+            }
+        }
     }
     Ok(got)
 }
@@ -236,6 +244,36 @@ pub fn run(ctx: &Ctx) -> Report {
     });
     acc.into_report(&mut rep, "B4_decoy_stretch_separator_real_window");
 
+    // B5: a string against ITSELF and against its one-symbol extensions through the full route (identical block hashes
+    // shorter than 7 symbols share no window although they are equal), every string over {0,1,63} up to 8 symbols
+    {
+        let short = all_strings(&[0, 1, 63], 8);
+        let acc = par_shards(short.len(), |i, acc| {
+            let a = &short[i];
+            let mut others: Vec<Vec<u8>> = vec![a.clone()];
+            for c in [0u8, 63] {
+                let mut x = a.clone();
+                x.push(c);
+                others.push(x);
+            }
+            for b in &others {
+                acc.evaluations += 1;
+                if a.len() >= 6 {
+                    acc.nontrivial += 1;
+                }
+                match check_pair(a, b) {
+                    Ok(true) => acc.count("answers_true", 1),
+                    Ok(false) => acc.count("answers_false", 1),
+                    Err(e) => acc.violation(format!("self a={} b={}", hex(a), hex(b)), e, case(a, b)),
+                }
+            }
+            if i == 500 {
+                acc.sample(case(a, a));
+            }
+        });
+        acc.into_report(&mut rep, "B5_every_short_string_against_itself_full_route");
+    }
+
     // B3: repeated / overlapping occurrences and low-entropy strings
     let totals: Vec<usize> = if thorough { (0..=64).collect() } else { vec![6, 7, 8, 13, 14, 15, 31, 32, 63, 64] };
     let mut low: Vec<Vec<u8>> = vec![];
@@ -262,7 +300,7 @@ pub fn run(ctx: &Ctx) -> Report {
     rep.set("exhaustive", true);
     rep.set(
         "rule",
-        "B4: b = a reversed stretch of a's own symbols (7..12, no shared window) + an optional symbol that is not in a + a real (7) or near-miss (6) window of a at every offset, and the mirror order, for every |a| in 7..=64.  Every position-array answer is also compared with the scoring route (score_strings_raw non-zero <=> common substring, for normalized strings).  B1: ALL ordered pairs over alphabets of size 2 (|a|<=10,|b|<=12; thorough 11/14) and 3 (7/8; thorough 8/9); B2: a = run-free ramp of every length la<=64, b = junk over two symbols not in a, of every length lb<=64, with a copy of a[oa..oa+m] planted at ob for EVERY (oa, ob) and m in {5,6,7,8} (m<7 are near-misses); B3: all pairs of two-run and periodic strings (repeated, overlapping occurrences).  Oracle: naive scan.  The position array used for each left string is a re-used object (it held a string of the right-hand family before; every third one was emptied in between), and the comparison targets are re-initialised objects that held the other string first.  A strided subset also goes through FuzzyHashCompareTarget (block_hash_1/2 accessors and is_comparison_candidate at equal, half and double block size).  Non-trivial = both strings have at least 7 symbols.",
+        "B5: every string over {0,1,63} of up to 8 symbols against itself and its one-symbol extensions through every route, including the hash-level compare at adjacent block sizes (non-zero score <=> common substring).  B4: b = a reversed stretch of a's own symbols (7..12, no shared window) + an optional symbol that is not in a + a real (7) or near-miss (6) window of a at every offset, and the mirror order, for every |a| in 7..=64.  Every position-array answer is also compared with the scoring route (score_strings_raw non-zero <=> common substring, for normalized strings).  B1: ALL ordered pairs over alphabets of size 2 (|a|<=10,|b|<=12; thorough 11/14) and 3 (7/8; thorough 8/9); B2: a = run-free ramp of every length la<=64, b = junk over two symbols not in a, of every length lb<=64, with a copy of a[oa..oa+m] planted at ob for EVERY (oa, ob) and m in {5,6,7,8} (m<7 are near-misses); B3: all pairs of two-run and periodic strings (repeated, overlapping occurrences).  Oracle: naive scan.  The position array used for each left string is a re-used object (it held a string of the right-hand family before; every third one was emptied in between), and the comparison targets are re-initialised objects that held the other string first.  A strided subset also goes through FuzzyHashCompareTarget (block_hash_1/2 accessors and is_comparison_candidate at equal, half and double block size).  Non-trivial = both strings have at least 7 symbols.",
     );
     rep
 }
